@@ -7,7 +7,12 @@
 use std::process::exit;
 
 fn main() {
-    let path = std::env::args().nth(1).expect("usage: debruijn-replay <file.json>");
+    let path = std::env::args().nth(1).expect("usage: debruijn-replay <file.json> | --validate-avx-models");
+    if path == "--validate-avx-models" {
+        let (run, bad) = debruijn::verif::validate_avx_models(1_000_000);
+        println!("AVX-MODELS cases={} mismatches={}", run, bad);
+        exit(if bad == 0 { 0 } else { 1 });
+    }
     let txt = std::fs::read_to_string(&path).expect("cannot read replay file");
     let v: serde_json::Value = serde_json::from_str(&txt).expect("bad json");
     let harness = v["harness"].as_str().expect("harness").to_string();
@@ -21,7 +26,10 @@ fn main() {
             exit(2);
         }
     };
-    let h = harness.trim_start_matches("verif::");
+    // "verif::kmers::kmer48::k_rc" -> "kmers::kmer48::k_rc"; "dna_string::verif::d_x" -> "dna_string::d_x"
+    let h0 = harness.trim_start_matches("verif::").to_string();
+    let h1 = h0.replacen("::verif::", "::", 1);
+    let h = h1.as_str();
     let r = std::panic::catch_unwind(|| debruijn::verif::replay(h, inputs));
     match r {
         Err(_) => {
